@@ -179,6 +179,41 @@ impl Monitor for C18 {
         } else {
             Vec::new()
         };
+        // global bundle invariants after every transaction that went through: while a position bundle exists its token exists
+        // (supply 1), and its bitmap marks as many indexes as there are bundled position accounts of that bundle
+        if ev.out.ok {
+            let touched: Vec<Pubkey> = ev.tx.ixs.iter().flat_map(|i| i.accounts.iter().map(|m| m.pubkey)).collect();
+            let mut seen: Vec<Pubkey> = Vec::new();
+            for k in &touched {
+                if seen.contains(k) {
+                    continue;
+                }
+                seen.push(*k);
+                // the bundle itself, or a position (whose mint may be a bundle mint)
+                let bundle_key = if ev.post.data(k).and_then(decode::position_bundle).is_some() || ev.pre.data(k).and_then(decode::position_bundle).is_some() {
+                    Some(*k)
+                } else if let Some(p) = ev.pre.data(k).and_then(decode::position).or_else(|| ev.post.data(k).and_then(decode::position)) {
+                    Some(crate::ix::pda_position_bundle(&p.mint))
+                } else {
+                    None
+                };
+                let Some(bk) = bundle_key else { continue };
+                let Some(b) = ev.post.get(&bk).filter(|a| a.lamports > 0).and_then(|a| decode::position_bundle(&a.data)) else { continue };
+                let marked: u32 = b.bitmap.iter().map(|x| x.count_ones()).sum();
+                let existing = ev.post.accts.iter().filter(|(_, a)| a.owner == crate::ix::wp() && a.lamports > 0 && a.data.len() == decode::POSITION_LEN).filter_map(|(_, a)| decode::position(&a.data)).filter(|p| p.mint == b.mint).count() as u32;
+                let supply = ev.post.data(&b.mint).and_then(decode::mint).map(|m| m.supply);
+                cov.probe("bundle_invariants_checked");
+                if marked != existing {
+                    out.push(viol("bundle_bitmap", ev.idx, format!("after `{}` the bitmap of bundle {} marks {} open positions but {} bundled position accounts exist", ev.tag, bk, marked, existing)));
+                }
+                if supply != Some(1) {
+                    out.push(viol("bundle_token", ev.idx, format!("after `{}` the position bundle {} exists but the supply of its token is {:?}", ev.tag, bk, supply)));
+                }
+            }
+            if !out.is_empty() {
+                return out;
+            }
+        }
         for (_i, ixn, pre, post, ok, code) in views {
             let Some(c) = wpix::decode(ixn) else { continue };
             let name = c.name();
